@@ -6,6 +6,12 @@ One op line carries a whole history (`verif_run`). The real `PusVerificator` is 
 `Service1Tm.unpack` — and `RequestId` objects (`remove_entry`). After every call the return value and
 the entire dictionary (sorted by `RequestId.as_u32()`) are compared with the Lean model, whose
 behaviour is proved to be that of the documented state machine.
+
+The key `tc_objects` of a line (not read by the model) says how the objects of the history are obtained: one
+telecommand object reused for command after command (`_Reused`), or a new telecommand per registration made by
+`PusTc.from_sp_header` from a new / an already used bare space packet header or by `PusTc.unpack`, with reports
+and request ids that never saw a telecommand object - request ids decoded from the 32-bit value, reports decoded
+from octets assembled by this module (`_Built`). The reference is always the model, keyed by the 32-bit values.
 """
 import itertools
 import random
@@ -240,17 +246,162 @@ class _Reused:
             return self.rids[tuple(f)]
         return RequestId.from_pus_tc(self.tc(f))
 
+# --------------------------------------------------------------------------------------------
+# octets by the harness itself (independent of every encoder of the package): a PUS C telecommand and a service-1 report
+# --------------------------------------------------------------------------------------------
+def _crc_table():
+    t = []
+    for i in range(256):
+        reg = i << 8
+        for _ in range(8):
+            reg = ((reg << 1) ^ 0x1021) & 0xFFFF if reg & 0x8000 else (reg << 1) & 0xFFFF
+        t.append(reg)
+    return t
 
-def _lookups_by_value(v: PusVerificator, probes, which, snap, after: str):
+
+_CRC_TABLE = _crc_table()
+
+
+def spec_crc16(data: bytes) -> int:
+    """CRC-16/CCITT-FALSE"""
+    reg = 0xFFFF
+    for x in data:
+        reg = ((reg << 8) & 0xFFFF) ^ _CRC_TABLE[(reg >> 8) ^ x]
+    return reg
+
+
+def spec_u32(f) -> int:
+    """the 32-bit request id of a telecommand whose header carries the six fields: its first four octets"""
+    v, t, s, apid, flags, count = f
+    return (v << 29) | (t << 28) | (s << 27) | (apid << 16) | (flags << 14) | count
+
+
+def spec_tc_octets(f, app_data: bytes) -> bytes:
+    """a complete PUS C telecommand [17,1] whose primary header carries the six fields"""
+    body = bytes([0x2F, 17, 1, 0, 0]) + app_data
+    raw = spec_u32(f).to_bytes(4, "big") + (len(body) + 2 - 1).to_bytes(2, "big") + body
+    return raw + spec_crc16(raw).to_bytes(2, "big")
+
+
+def spec_report_octets(f, sub: int, stepval, width: int) -> bytes:
+    """a complete service-1 report [1,sub] for the request id of the six fields, as it arrives from the wire: primary header
+    (TM, secondary header, APID 0x55, unsegmented, count = sub), PUS C secondary header with the 7-octet time stamp, request id,
+    step id (width octets, step reports), failure notice (1-octet code 3, one octet of data; failure reports), CRC"""
+    src = spec_u32(f).to_bytes(4, "big")
+    if sub in (5, 6):
+        src += int(stepval).to_bytes(width, "big")
+    if sub % 2 == 0:
+        src += bytes([3, 0xAB])
+    field = bytes([0x20, 1, sub, 0, 0, 0, 0]) + TIMESTAMP + src
+    raw = ((1 << 11) | 0x55).to_bytes(2, "big") + ((3 << 14) | sub).to_bytes(2, "big") + (len(field) + 2 - 1).to_bytes(2, "big") + field
+    return raw + spec_crc16(raw).to_bytes(2, "big")
+
+
+def _rid_from_u32(f) -> RequestId:
+    """the request id as a receiver gets it: decoded from its four octets"""
+    return RequestId.unpack(spec_u32(f).to_bytes(4, "big") + b"\x00")
+
+
+_probe_cache: Dict[Tuple, Any] = {}
+
+
+def _free_probe(f):
+    """(32-bit value, [(label, request id)]) with request ids that never saw a telecommand object (shared between the lines
+    like the reports: nothing modifies them)"""
+    p = _probe_cache.get(tuple(f))
+    if p is None:
+        p = (spec_u32(f), [("built from the fields", _req(f)), ("decoded from its four octets", _rid_from_u32(f))])
+        if len(_probe_cache) < 100000:
+            _probe_cache[tuple(f)] = p
+    return p
+
+
+BUILT_MODES = ("header", "header-packed", "header-compared", "header-reqid", "decoded")
+
+
+class _Built:
+    """objects for a history, key "tc_objects" (not read by the model op) one of BUILT_MODES: every registration comes with a
+    NEW telecommand object made for the specified header fields
+      "header":          PusTc.from_sp_header(sph, 17, 1, app_data) from a new SpacePacketHeader (a bare header: default secondary
+                         header flag, packet type TM or TC - from_sp_header makes it the header of a PUS telecommand);
+      "header-packed" / "header-compared" / "header-reqid":  the same, but the application has USED the bare header before:
+                         packed it / compared it (and its packet id) with == / taken RequestId.from_sp_header(sph) of it;
+      "decoded":         PusTc.unpack of octets assembled by the harness (a telecommand as received);
+    header bits from_sp_header fixes (packet type, secondary header flag) are then given the specified values through the setters
+    of the telecommand's header. Reports and request ids are made WITHOUT the telecommand objects: request ids decoded from the
+    32-bit value (RequestId.unpack) or built from the fields, constructor reports around such a request id, "decoded" reports by
+    Service1Tm.unpack of octets assembled by the harness; only the create_*_tm reports use the telecommand object that was
+    registered for the command (or one made the same way). The reference stays the model, keyed by the 32-bit values."""
+    prepared = False
+
+    def __init__(self, how: str):
+        self.how = how
+        self.n = 0
+        self.registered: Dict[Tuple, PusTc] = {}
+
+    def _new_tc(self, f) -> PusTc:
+        v, t, s, apid, flags, count = f
+        self.n += 1
+        app_data = bytes([count & 0xFF])
+        if self.how == "decoded":
+            return PusTc.unpack(spec_tc_octets(f, app_data))
+        bare = PacketType((apid + count + self.n) % 2)
+        sph = SpacePacketHeader(packet_type=bare, apid=apid, seq_count=count, data_len=0, seq_flags=SequenceFlags(flags), ccsds_version=v)
+        if self.how == "header-packed":
+            sph.pack()
+        elif self.how == "header-compared":
+            twin = SpacePacketHeader(packet_type=bare, apid=apid, seq_count=count, data_len=0, seq_flags=SequenceFlags(flags), ccsds_version=v)
+            _ = (sph == twin, sph.packet_id == PacketId(bare, False, apid), sph.packet_seq_control == twin.packet_seq_control)
+        elif self.how == "header-reqid":
+            _ = int(RequestId.from_sp_header(sph).as_u32())
+        tc = PusTc.from_sp_header(sph, 17, 1, app_data)
+        if (t, s) != (1, 1):
+            tc.sp_header.packet_type = PacketType(t)
+            tc.sp_header.sec_header_flag = bool(s)
+        return tc
+
+    def tc(self, f) -> PusTc:
+        tc = self._new_tc(f)
+        self.registered.setdefault(tuple(f), tc)
+        return tc
+
+    def rid(self, f) -> RequestId:
+        self.n += 1
+        return _rid_from_u32(f) if self.n % 2 else _req(f)
+
+    def tm(self, f, sub, stepval, mode, width) -> Service1Tm:
+        if not 1 <= sub <= 8:
+            return _tm(f, sub, stepval, mode, width)
+        if mode == MK_DECODED:
+            return Service1Tm.unpack(spec_report_octets(f, sub, stepval, width),
+                                     core.REUSE.get(["UnpackParams", len(TIMESTAMP), width, 1], lambda: UnpackParams(len(TIMESTAMP), width, 1)))
+        step = PacketFieldEnum(8 * width, stepval) if sub in (5, 6) else None
+        fail = FailureNotice(PacketFieldEnum(8, 3), bytes([0xAB])) if sub % 2 == 0 else None
+        if mode == MK_HELPER:
+            tc = self.registered.get(tuple(f))
+            if tc is None:
+                tc = self._new_tc(f)
+            kw: Dict[str, Any] = {"apid": 0x55, "pus_tc": tc, "timestamp": TIMESTAMP}
+            if step is not None:
+                kw["step_id"] = step
+            if fail is not None:
+                kw["failure_notice"] = fail
+            return getattr(s1, _HELPERS[sub])(**kw)
+        return Service1Tm(apid=0x55, subservice=Subservice(sub), timestamp=TIMESTAMP, verif_params=VerificationParams(self.rid(f), step, fail),
+                          seq_count=sub)
+
+
+def _lookups_by_value(v: PusVerificator, probes, which, snap, after: str, turn=None):
     """`request id in verif_dict` / `verif_dict.get(request id)` answer by the VALUE of the request id: for the ids `which`
     of the history a request id built from the fields (and the one the application took for that command earlier) is found
     exactly when the dictionary holds an entry with that 32-bit value, and the record found is that entry's.
-    probes[i] = (32-bit value, [(label, request id), ...])"""
+    probes[i] = (32-bit value, [(label, request id), ...]); turn = k: only the first (k even) / second (k odd) and the further
+    request ids of each entry are used (the independent ones take turns from call to call; all of them at the end)"""
     held = {k: st for k, st in snap}
     d = v.verif_dict
     for i in which:
         k, rs = probes[i]
-        for label, r in rs:
+        for label, r in (rs if turn is None else rs[turn % 2:turn % 2 + 1] + rs[2:]):
             found, rec = r in d, d.get(r)
             if found != (k in held) or (rec is None) == found or (rec is not None and _status(rec) != held[k]):
                 saw = "finds nothing" if not found else ("finds the record " + str(None if rec is None else _status(rec)))
@@ -261,22 +412,29 @@ def _lookups_by_value(v: PusVerificator, probes, which, snap, after: str):
 def op_verif_run(a):
     ids = a["ids"]
     objs = a.get("tc_objects")
-    src = _Reused(a, lazy=(objs == "reused-lazy")) if objs in ("reused", "reused-lazy") else _Shared()
+    if objs in BUILT_MODES:
+        src = _Built(objs)
+    else:
+        src = _Reused(a, lazy=(objs == "reused-lazy")) if objs in ("reused", "reused-lazy") else _Shared()
     v = PusVerificator()
     outs: List[Any] = []
     dicts: List[Any] = []
     probes, recent = [], []
     if objs:
         for f in ids:
-            rs = [("built from the fields", _req(f))]
+            rs = [("built from the fields", _req(f)), ("decoded from its four octets", _rid_from_u32(f))]
             if src.prepared and tuple(f) in src.rids:
                 rs.append(("taken from the telecommand object when it carried that command", src.rids[tuple(f)]))
-            probes.append((int(rs[0][1].as_u32()), rs))
+            probes.append((spec_u32(f), rs))
     steps = a["steps"][: a["n"]]
     for st in steps:
         kind = st[0]
         if kind == ADD_TC:
             out = bool(v.add_tc(src.tc(ids[st[1]])))
+            if objs and out and _req(ids[st[1]]) not in v.verif_dict:
+                raise SelfCheckFailure(f"call #{len(outs)} of the history (telecommand objects: {objs}): add_tc accepted a telecommand whose "
+                                       f"header carries the fields {ids[st[1]]} (request id {spec_u32(ids[st[1]]):#010x}); the dictionary then "
+                                       f"holds {[hex(int(k.as_u32())) for k in v.verif_dict]} and nothing under that request id")
         elif kind == ADD_TM:
             f, sub, stepval = ids[st[1]], st[2], st[3]
             mode = st[4] if len(st) > 4 else MK_CTOR
@@ -300,7 +458,10 @@ def op_verif_run(a):
                 out = {"completed": bool(res.completed), "status": _status(res.status)}
                 stored = v.verif_dict.get(_req(f))
                 if stored is None or _status(stored) != out["status"]:
-                    raise SelfCheckFailure("the status of the returned result is not the record stored for the request id")
+                    raise SelfCheckFailure(f"call #{len(outs)} of the history: add_tm returned the status {out['status']} for a report on request id "
+                                           f"{spec_u32(f):#010x}; the record stored under that request id is "
+                                           f"{None if stored is None else _status(stored)} (dictionary keys: "
+                                           f"{[hex(int(k.as_u32())) for k in v.verif_dict]})")
         elif kind == REMOVE:
             out = bool(v.remove_entry(src.rid(ids[st[1]])))
         elif kind == REMOVE_COMPLETED:
@@ -316,7 +477,12 @@ def op_verif_run(a):
             if len(st) > 1:
                 recent = [st[1]] + [i for i in recent if i != st[1]][:3]
             which = range(len(ids)) if len(ids) <= 4 or len(outs) == len(steps) else recent
-            _lookups_by_value(v, probes, which, dicts[-1], f"call #{len(outs) - 1} of the history (telecommand objects: {objs})")
+            _lookups_by_value(v, probes, which, dicts[-1], f"call #{len(outs) - 1} of the history (telecommand objects: {objs})",
+                              None if len(outs) == len(steps) else len(outs))
+    if not objs and dicts and (len(steps) + sum(len(st) for st in steps[-2:])) % 4 == 0:
+        # (default mode: once, at the end of every fourth history) the entries are found by request ids that never saw a
+        # telecommand object
+        _lookups_by_value(v, [_free_probe(f) for f in ids[:6]], range(min(len(ids), 6)), dicts[-1], "the last call of the history")
     _TRACKERS.check("C16.tracker", v, _tracker_view)
     return {"outs": outs, "dicts": dicts}
 
@@ -366,14 +532,17 @@ def run_case(ids, steps, tag, tc_objects=None) -> Case:
     op = {"op": "verif_run", "n": len(steps), "ids": ids, "steps": steps}
     if tc_objects:
         # (not read by the model op) the history is realised with ONE telecommand object that is given the header fields
-        # of each command through its setters, see _Reused
+        # of each command through its setters, see _Reused - or with telecommands made from space packet headers / decoded,
+        # and reports / request ids that never saw a telecommand object, see _Built
         op["tc_objects"] = tc_objects
         tag += "+tc-" + tc_objects
     return Case(op, "valid", tag=tag)
 
 
-# every REUSE_EVERY-th history of the exhaustive sets is run a second time with one reused telecommand object
+# every REUSE_EVERY-th history of the exhaustive sets is run a second time with one reused telecommand object, every
+# BUILT_EVERY-th with telecommands made from (used) space packet headers / decoded (BUILT_MODES in turn)
 REUSE_EVERY = 11
+BUILT_EVERY = 19
 
 
 def alphabet(n_ids: int, step_vals=(0, 1)) -> List[List[int]]:
@@ -527,7 +696,7 @@ class C16(Prop):
                     steps.append(tm_step(1, chain[-1 - k], 20 + k, mode, 1))
                 steps += [[REMOVE_COMPLETED], [REMOVE, 0], [REMOVE, 0], [REMOVE, 1], [ADD_TC, 0], tm_step(0, 5, 1, mode, 1)]
                 yield run_case([TC_A, TC_B], steps, "scripted")
-                for objs in ("reused", "reused-lazy"):
+                for objs in ("reused", "reused-lazy") + BUILT_MODES:
                     yield run_case([TC_A, TC_B], steps, "scripted", objs)
         # one telecommand object, used for command after command (sequence count / APID / flag bits moving on): register,
         # build its reports, move on, register again; the reports of the earlier commands arrive afterwards
@@ -557,7 +726,7 @@ class C16(Prop):
                 for i in order:
                     steps.append(tm_step(i, sub, 1 + i, rng.choice([MK_CTOR, MK_HELPER, MK_HELPER, MK_DECODED]), rng.choice([1, 2])))
             steps += [[REMOVE, 0], [ADD_TC, len(ids) - 1], [REMOVE_COMPLETED], [ADD_TC, 0], tm_step(0, 2, None, MK_HELPER)]
-            for objs in (None, "reused", "reused-lazy"):
+            for objs in (None, "reused", "reused-lazy") + BUILT_MODES:
                 yield run_case(ids, steps, "object-reuse", objs)
 
         # --- exhaustive: all report sequences for one telecommand ---------------------------------
@@ -575,6 +744,8 @@ class C16(Prop):
             n_h += 1
             if n_h % REUSE_EVERY == 0:
                 yield run_case([TC_A, TC_B], list(hist), f"all-histories-{depth2}", ("reused", "reused-lazy")[(n_h // REUSE_EVERY) % 2])
+            if n_h % BUILT_EVERY == 0:
+                yield run_case([TC_A, TC_B], list(hist), f"all-histories-{depth2}", BUILT_MODES[(n_h // BUILT_EVERY) % len(BUILT_MODES)])
         if not thorough:
             for hist in itertools.product(alpha, repeat=3):
                 yield run_case([TC_A, TC_B], [[ADD_TC, 0], [ADD_TC, 1]] + list(hist), "all-histories-3-after-registration")
@@ -582,6 +753,9 @@ class C16(Prop):
                 if n_h % REUSE_EVERY == 0:
                     yield run_case([TC_A, TC_B], [[ADD_TC, 0], [ADD_TC, 1]] + list(hist), "all-histories-3-after-registration",
                                    ("reused", "reused-lazy")[(n_h // REUSE_EVERY) % 2])
+                if n_h % BUILT_EVERY == 0:
+                    yield run_case([TC_A, TC_B], [[ADD_TC, 0], [ADD_TC, 1]] + list(hist), "all-histories-3-after-registration",
+                                   BUILT_MODES[(n_h // BUILT_EVERY) % len(BUILT_MODES)])
         # after random prefixes (deeper states: partially verified, finished, removed and re-registered)
         depth3 = 3 if thorough else 2
         for _ in range(12):
@@ -600,6 +774,8 @@ class C16(Prop):
             n_h += 1
             if n_h % 6 == 0:
                 yield run_case(ids, steps, "random-long", ("reused", "reused-lazy")[(n_h // 6) % 2])
+            if n_h % 5 == 0:
+                yield run_case(ids, steps, "random-long", BUILT_MODES[(n_h // 5) % len(BUILT_MODES)])
         # many telecommands, few reports each (dictionary behaviour)
         for _ in range(300 if thorough else 40):
             n_tc = rng.randint(8, 40)
@@ -608,6 +784,8 @@ class C16(Prop):
             n_h += 1
             if n_h % 2 == 0:
                 yield run_case(ids, steps, "random-many-tcs", ("reused", "reused-lazy")[(n_h // 2) % 2])
+            else:
+                yield run_case(ids, steps, "random-many-tcs", BUILT_MODES[(n_h // 2) % len(BUILT_MODES)])
         # --- request ids / reports that come from the library's factories are objects of their own (key "fac") ---
         import props.c11 as c11
         for _ in range(20 if thorough else 3):
